@@ -471,10 +471,21 @@ class HttpParser:
             parts[0].strip(),
             b'' if len(parts) == 1 else parts[1].strip(),
         )
+        previous = self.header(key) \
+            if key.lower() == b'content-length' and self.has_header(key) \
+            else None
         k = self.add_header(key, value)
         # b'content-length' in self.headers and int(self.header(b'content-length')) > 0
-        if k == b'content-length' and int(value) > 0:
-            self._content_expected = True
+        if k == b'content-length':
+            # Content-Length fields which disagree make the message length
+            # undefined (RFC 7230, 3.3.3).  Body handling below works with
+            # the last value only, a larger earlier one left the parser
+            # expecting content that can never be complete.
+            if previous is not None and int(previous) != int(value):
+                raise HttpProtocolException(
+                    'Conflicting Content-Length header fields',
+                )
+            self._content_expected = int(value) > 0
         # return b'transfer-encoding' in self.headers and \
         #   self.headers[b'transfer-encoding'][1].lower() == b'chunked'
         elif k == b'transfer-encoding' and value.lower() == b'chunked':
